@@ -203,6 +203,30 @@ fn pipe_case_impl(run: &mut Run, id: &str, map: &Beatmap, settings: &Settings, p
             ),
             format!("{}{gvals}", attrs_str("", &attrs)),
         );
+        // `PIPE osuc` (worker CURVE): the same request WITHOUT the curve inputs — the model computes
+        // `path.dist()`, the nested positions and the raw lazy end of every slider from the decoded control
+        // points (`Model/PipelineCurve.lean: curveInputsOfModel`); same expected response
+        run.count("lines:PIPE-osuc");
+        run.line(
+            &format!("{id}:osuc"),
+            format!(
+                "PIPE osuc {hexb} {} {} {} {} {} {} {} {} {} {} {} {}",
+                probe.reflection,
+                h64(probe.cs),
+                h64(probe.ar_window),
+                h64(attrs.ar),
+                h64(attrs.hp),
+                h64(attrs.great_hit_window),
+                h64(attrs.ok_hit_window),
+                h64(attrs.meh_hit_window),
+                h64(probe.clock_rate),
+                flags,
+                if take == usize::MAX { "-".to_owned() } else { take.to_string() },
+                if gidx.is_empty() { "-".to_owned() } else { gidx.iter().map(|i| i.to_string()).collect::<Vec<_>>().join(",") }
+            ),
+            format!("{}{gvals}", attrs_str("", &attrs)),
+        );
+        run.repro.insert(format!("{id}:osuc"), repro.to_owned());
         run.eval((n > 0).then_some(id));
         return;
     }
